@@ -77,6 +77,12 @@ fn make_hook(id: usize, before: bool, outcome: Outcome) -> &'static RustCallback
             Outcome::Handled => Ok(HookResult::Handled),
             Outcome::Stop => {
                 ax.stop();
+                // still inside a hook: stopping does not open the hook table
+                let inner: &'static RustCallbackFunction = POOL.with(|p| p.borrow()[0]);
+                let r1 = ax.hook_before_mnemonic_native(M1, inner);
+                let r2 = ax.hook_after_mnemonic_native(M2, inner);
+                let r3 = ax.handle_syscalls(vec![Syscall::Exit]);
+                e.register_result_ok = Some(r1.is_ok() || r2.is_ok() || r3.is_ok());
                 Ok(HookResult::Unhandled)
             }
             Outcome::Error => Err("hook failed on purpose".into()),
